@@ -20,7 +20,7 @@ TECHNIQUE = "Lean 4 proof (case analysis over terms and SAN entries, list induct
 DESIGN_REF = "§5 C15"
 
 NAI = "1.3.6.1.5.5.7.8.8"
-OTHER_OIDS = ["1.3.6.1.5.5.7.8.7", "1.3.6.1.4.1.311.20.2.3", "1.2.3.4"]
+OTHER_OIDS = ["1.3.6.1.5.5.7.8.7", "1.3.6.1.4.1.311.20.2.3", "1.2.3.4", "1.2.3.5", "1.3.6.1.4.1.99999.1", "1.3.6.1.4.1.55555.7"]   # the last four are in no OID table
 NAMES = [b"radius.example.org", b"example.org", b"a.b.example.org", b"idp.realm.test", b"xn--bcher-kva.example", b"192.0.2.7", b"server1"]
 
 
